@@ -432,14 +432,15 @@ Proof.
   assert (A1 : abs s1 = abs s) by (apply abs_proj; reflexivity).
   destruct (instr_at_some s i W Ei) as [Hpc Hwi].
   pose proof (exec_ok i s1 W1 Hwi Hpc) as X.
-  rewrite <- fetch_agree by assumption. change (apc (abs s)) with (wrap (pc s)).
+  assert (Ef : spec_fetch (prog (im s)) (apc (abs s)) = Some i)
+    by (change (apc (abs s)) with (wrap (pc s)); rewrite <- fetch_agree by assumption; exact Ei).
   rewrite <- fetch_agree by assumption. rewrite Ei.
   rewrite A1 in X.
   destruct (behavior i s1) as [s2 [e|]] eqn:Eb.
   - (* fault inside behavior *)
     destruct X as (Xa & Xf & Xw & Xi). cbn [fst snd fault_ok f_addr f_instr f_err].
     split; [exact Xa|]. split; [|split; [exact Xw | rewrite Xi; reflexivity]].
-    split; [symmetry; apply wrap_small; lia|]. split; [assumption|exact Xf].
+    split; [symmetry; apply wrap_small; lia|]. split; [exact Ef|exact Xf].
   - destruct X as (Xa & Xf & Xw & Xi).
     assert (Hre : (match i with
                    | ILoad o _ _ _ =>
@@ -454,6 +455,14 @@ Proof.
       destruct (load_reread _ _ _ _ _ _ W1 Hr1 Eb) as [v Hv]. cbn [load_addr_pre]. rewrite Hv. reflexivity. }
     rewrite Hre. cbn [fst snd fault_ok].
     split; [exact Xa|]. split; [exact Xf|]. split; [exact Xw|]. cbn [with_pc im]. rewrite Xi. reflexivity.
+Qed.
+
+Lemma fault_rel_none e : fault_rel e None -> False.
+Proof.
+  unfold fault_rel. intros H.
+  repeat match type of H with
+         | context [match ?x with _ => _ end] => destruct x
+         end; exact H.
 Qed.
 
 (** runs *)
@@ -478,7 +487,7 @@ Proof.
     destruct (single_pipeline_step s) as [s' f]. destruct (spec_step (prog (im s)) (abs s)) as [a' sf].
     cbn [fst snd] in X. destruct X as (Xa & Xf & Xw & Xp).
     destruct f as [ft|]; cbn [fault_ok] in Xf.
-    + destruct Xf as (F1 & F2 & F3). destruct sf as [sf|]; [|destruct (f_err ft) as [? [] ? []| | | |[]]; cbn in F3; try contradiction].
+    + destruct Xf as (F1 & F2 & F3). destruct sf as [sf|]; [|exfalso; exact (fault_rel_none _ F3)].
       cbn [fst snd end_rel]. auto.
     + subst sf. specialize (IH s' Xw). cbv zeta in IH. rewrite Xp, Xa in IH. exact IH.
 Qed.
